@@ -149,8 +149,62 @@ def world_sequences(ctx, I):
             ctx.mismatch("score() raised in a sequence of scorings under different worlds", case, impl=exc_name(e) + ": " + repr(e))
 
 
+def utility_evaluations(ctx, I):
+    """`models are cloned per evaluation`: consecutive evaluations of ONE utility object on different training subsets hand out DISTINCT fitted models, a later evaluation leaves the
+    model of an earlier result as it was, an evaluation equals the evaluation of a fresh utility on the same data (nothing carried over - also for an estimator that would
+    continue from its previous state: `warm_start=True`), and the utility's own model object stays unfitted."""
+    from sklearn.neighbors import KNeighborsClassifier
+    from sklearn.linear_model import SGDClassifier
+    from sklearn.base import clone
+    U = I["utility"]
+    rng = ctx.rng
+    for it in range(6 if ctx.tier == "quick" else 40):
+        nprng = np.random.RandomState(rng.randrange(2 ** 31))
+        n = rng.randint(6, 10)
+        X = np.round(nprng.randn(n, 2), 3)
+        y = np.array([i % 2 for i in range(n)])
+        nprng.shuffle(y)
+        Xv = np.round(nprng.randn(6, 2), 3)
+        yv = np.array([i % 2 for i in range(6)])
+        warm = (it % 2 == 1)
+        mk = (lambda: SGDClassifier(warm_start=True, max_iter=2, tol=None, shuffle=False, random_state=0, learning_rate="constant", eta0=0.5)) if warm else (lambda: KNeighborsClassifier(1))
+        model = mk()
+        util = U.SklearnModelAccuracy(model)
+        subsets = []
+        for _ in range(4):
+            k = rng.randint(3, n)
+            idx = sorted(rng.sample(range(n), k))
+            if len(set(y[idx].tolist())) < 2:
+                continue
+            subsets.append(idx)
+        case = dict(kind="utility evaluations", estimator=("SGDClassifier(warm_start=True)" if warm else "KNeighborsClassifier(1)"), X=X.tolist(), y=y.tolist(), Xv=Xv.tolist(), yv=yv.tolist(), subsets=subsets)
+        ctx.case(case, nontrivial=len(subsets) >= 2, kind="utility_evaluations", warm_start=warm)
+        try:
+            results, preds, scores = [], [], []
+            with warnings.catch_warnings():
+                warnings.simplefilter("ignore")
+                for idx in subsets:
+                    r = util(X[idx], y[idx], Xv, yv)
+                    results.append(r)
+                    scores.append(float(r.score))
+                    preds.append(None if getattr(r, "model", None) is None else np.asarray(r.model.predict(Xv)).tolist())
+                fresh = [float(U.SklearnModelAccuracy(mk())(X[idx], y[idx], Xv, yv).score) for idx in subsets]
+            models = [getattr(r, "model", None) for r in results]
+            if any(m is not None and m is models[j] for i, m in enumerate(models) for j in range(i)):
+                ctx.mismatch("two evaluations of one utility hand out one and the same model object (models are cloned per evaluation)", case, impl="shared model object")
+            elif any(m is not None and pr is not None and np.asarray(m.predict(Xv)).tolist() != pr for m, pr in zip(models, preds)):
+                ctx.mismatch("the model of an earlier utility result was changed by a later evaluation", case, impl="earlier result's predictions changed")
+            if any(abs(a - b) > 1e-12 for a, b in zip(scores, fresh)):
+                ctx.mismatch("a utility evaluation depends on the evaluations made before it on the same utility object", case, impl=scores, spec=fresh)
+            if hasattr(model, "classes_") or hasattr(model, "coef_"):
+                ctx.mismatch("the model object held by the utility was fitted in place", case, impl="fitted attributes on utility.model")
+        except Exception as e:  # noqa
+            ctx.mismatch("utility evaluation raised", case, impl=exc_name(e) + repr(e))
+
+
 def run(ctx):
     I = load_impl(ctx)
+    utility_evaluations(ctx, I)
     addpath_sequences(ctx, I)
     world_sequences(ctx, I)
     import pandas as pd
